@@ -633,7 +633,7 @@ def find_defs(tree):
             for t in ast.walk(n):
                 nm = t.id if isinstance(t, ast.Name) and not isinstance(t.ctx, ast.Load) else \
                     (t.asname or t.name).split('.')[0] if isinstance(t, ast.alias) else None
-                if nm in mod_names or nm in [t2['cls'] for t2 in TARGETS]:
+                if nm is not None and (nm in mod_names or nm in [t2['cls'] for t2 in TARGETS]):
                     raise TranslatorGap(f'{nm} is also bound at module level (line {n.lineno})')
     for cls in {t['cls'] for t in TARGETS if t['cls']}:
         if cls not in classes:
